@@ -209,11 +209,13 @@ class PinObs(drive.Observer):
         self.ev = []
         self.stride = stride
         self.proj = {}
+        self.held = {}
 
     def on_asm(self, ai, asm, pre, dz, t_gap, h_gap, power, adiabatic):
         reg = pre.reg
         if not hasattr(reg, 'pin_model') or self.k % self.stride:
             return
+        self.held[ai] = (reg, np.array(reg.pin_temps[:, 3:], copy=True))
         pw = (power or {}).get('pins')
         if pw is None:
             pw = np.zeros(reg.n_pin)
@@ -274,6 +276,15 @@ class PinObs(drive.Observer):
                             'tgeom': qT(tot), 'wsum12': w12, 'tolT': 2})
 
 
+    def end_step(self, k):
+        for ai, (reg, t) in sorted(self.held.items()):
+            now = np.asarray(reg.pin_temps[:, 3:], dtype=float)
+            self.ev.append({'e': 'PinKeep', 'a': ai + 1, 'k': int(k),
+                            'same': int(now.shape == t.shape and
+                                        bool(np.array_equal(now, t)))})
+        self.held = {}
+
+
 def recorded(args):
     label, case = args
     dassh = common.import_dassh()
@@ -327,6 +338,17 @@ def run(tier, res, replay=None):
         'r_frac': [0.0, 0.33333, 0.66667], 'pu_frac': [0.2, 0.2, 0.2],
         'zr_frac': [0.1, 0.1, 0.1], 'porosity': [0.25, 0.2, 0.15]}
     rec_cases.append(('rod2-metalfuel-film-user', c))
+    # one type at several positions, powers and flows differing: every
+    # assembly keeps its own pin temperatures
+    from harness.scenarios import fitted_type, layout_positions, make_core, \
+        flow_for
+    T1 = fitted_type(2, 0.060)
+    fb = flow_for(T1, 0.1)
+    c = make_core(rng, {'T': T1},
+                  [(r_, p_, 'T') for (r_, p_) in layout_positions(4)],
+                  [fb, 0.6 * fb, 1.3 * fb, 0.8 * fb], gap_model='flow',
+                  bypass_fraction=0.03)
+    rec_cases.append(('core-one-type-pins', trackcheck.with_pins(c)))
     ngen = 8 if tier == 'quick' else 32
     per = 12 if tier == 'quick' else 40
     with ProcessPoolExecutor(max_workers=common.NCPU) as ex:
